@@ -60,6 +60,12 @@ claimed = {
          "deadline is exactly keep-alive + keep-alive/5 seconds (K <= d <= 1.5 K) and timeoutReader.Read re-arms the read deadline before every single socket read (ghost 'armed' flag consumed by the read), so a client silent for d fails the read; "
          "processIncoming answers every PINGREQ with exactly one PINGRESP (or a write failed) and sends PINGRESP for nothing else. Not covered: where the keep-alive value comes from (handleConnection) and that the failed read leads to the will being published (teardown, see C09)."),
    design='DESIGN.md §4 C19', technique='ghost-state contracts and call-site obligations; VCs over go/ssa discharged by z3/cvc5 (govc)'),
+ 'C09': dict(level='proof',
+   text=("Contract-based deductive proof of the three mechanisms the property rests on (core; which goroutine reaches teardown and when is a schedule question outside any contract). (1) Session.Init and Session.Update establish the will invariant: whenever the stored CONNECT "
+         "has its will flag set, the session's will message is a PUBLISH whose QoS, retain flag, payload and (valid) topic are exactly the will fields of that stored CONNECT - for fresh and resumed sessions alike (Update rebuilds or drops the will; the defect that it kept the previous one was fixed). "
+         "(2) processIncoming clears the stored CONNECT's will flag on DISCONNECT and returns errDisconnect, and changes the flag for no other packet type. (3) service.stop hands the will on (onPublish) exactly once iff it is the first call, the service is a server and the will flag is still set, and never otherwise; "
+         "on the first call it also deletes a clean session from the store. Not covered: that every abnormal end reaches stop, and that buffered packets (a final DISCONNECT) are processed before end-of-stream is acted on (peekMessageSize is not under contract; seeded change C09-2 is missed for that reason)."),
+   design='DESIGN.md §4 C09', technique='data invariant + ghost-log contracts; VCs over go/ssa discharged by z3/cvc5 (govc)'),
  'C04': dict(level='proof',
    text=("Contract-based deductive proof: every index, slice (also against len, not only cap: 'strictslice'), nil, conversion and overflow obligation in every Decode path is generated with no annotation and discharged; "
          "contracts add 0<=n<=len(src), every returned field lies within src[:n], loop variants (termination), and acceptance of every well-formed packet (for SUBSCRIBE/UNSUBSCRIBE against a caller-chosen ghost entry chain). Unbounded in input length and topic count."),
